@@ -148,6 +148,29 @@ func runC18(r *Run) {
 		}
 	}
 	r.count("ctx.second-handshake")
+	// last (the registry is process-wide and has no removal): one implementation registered under further numbers,
+	// as an application may do through the exported Register. A handshake for such a number is a handshake for a
+	// registered version: it is accepted and the context adopts the handshake's version, not the implementation's own.
+	for _, alias := range []int{3, 9, 200} {
+		impl, err := protocol.GetProtocol(uint8(1 + alias%2))
+		if err != nil {
+			continue
+		}
+		protocol.Register(uint8(alias), impl)
+		ctx := protocol.NewContext(context.Background(), protocol.ClientSide)
+		err = ctx.Handshake(&protocol.Handshake{Version: uint8(alias), Codec: 2, Platform: 5})
+		got := fmt.Sprintf("%v %d %d %d %v", err == nil, ctx.Version, ctx.Codec, ctx.Platform, ctx.Handshaked)
+		want := fmt.Sprintf("true %d 2 5 true", alias)
+		if got != want {
+			r.violate(Violation{What: "a handshake for a version registered as an alias of another implementation: accepted, and the context adopts the handshake's version",
+				Case: fmt.Sprintf("Register(%d, implementation of v%d); Context.Handshake{Version:%d Codec:2 Platform:5}", alias, 1+alias%2, alias), Impl: got, Expect: want})
+		}
+		if p, err := protocol.GetProtocol(uint8(alias)); err != nil || p != impl {
+			r.violate(Violation{What: "lookup of a version registered as an alias fails or returns another implementation", Case: fmt.Sprintf("Register(%d, ...)", alias)})
+		}
+		r.st.Evaluations++
+		r.count("ctx.alias-registration")
+	}
 	// the context of a connection obtained from the TCP dialer carries exactly the requested fields
 	c18DialContexts(r)
 }
